@@ -110,8 +110,9 @@ pub fn c18_case(rep: &mut Report, seed: u64, idx: u64, verbose: bool) {
         eprintln!("{}", descr);
     }
     // history: population changes and lost replies during the first `n_changes` sweeps
-    let n_changes = rng.usize(10);
-    let loss = *rng.pick(&[0u64, 0, 10, 30]);
+    // (under the interpreter a sweep of 126 addresses takes minutes: no history there, two stable sweeps)
+    let n_changes = if cfg!(miri) { 0 } else { rng.usize(10) };
+    let loss = if cfg!(miri) { 0 } else { *rng.pick(&[0u64, 0, 10, 30]) };
     for d in &devs {
         *d.script_pct.borrow_mut() = loss;
     }
@@ -131,6 +132,10 @@ pub fn c18_case(rep: &mut Report, seed: u64, idx: u64, verbose: bool) {
         steps += 1;
         if steps > 60_000_000 {
             rep.inconclusive("C18 case exceeded the step cap");
+            return;
+        }
+        if steps % 256 == 0 && past_deadline() {
+            rep.count("cases_cut_short_by_time_budget");
             return;
         }
         profirust::verif::set_fuel(200_000);
@@ -269,7 +274,7 @@ pub fn c18_case(rep: &mut Report, seed: u64, idx: u64, verbose: bool) {
                 sweeps_at_last_change = sweeps;
             }
             // two full sweeps (three probes of 125, to be safe about the partial one) of stability
-            if sweeps >= sweeps_at_last_change + 3 {
+            if sweeps >= sweeps_at_last_change + if cfg!(miri) { 2 } else { 3 } {
                 break;
             }
         }
@@ -343,7 +348,7 @@ pub fn c18(ctx: &mut Ctx) {
         }
         return;
     }
-    let n = ctx.n(8000, 800_000, 1);
+    let n = ctx.n(8000, 800_000, 16);
     for k in 0..n {
         if ctx.over_budget() {
             break;
